@@ -66,6 +66,19 @@ CLAIMS = {
         COMMON_NOTE + "Axioms: the standard-library real-number axioms and classic (through Flocq) for C15_len_partial only. "
         "The bridge PrimFloat ops = Flocq rounding is not proved (sweep).",
         "DESIGN.md §3 C15"),
+    "C16": (
+        "Coq proof (termination by a strictly decreasing measure, permutation/linearisation theorems, trace-monoid commutation lemma) + exact event-sequence correspondence with the real digital_tjm loop under stubs and a wall-clock guard",
+        "Machine-checked proof, for every instruction list and every mode (strong with/without layer sampling, weak): the loop "
+        "terminates within one iteration per instruction; every gate is executed exactly once; gates sharing a qubit keep their "
+        "program order; any two such linearisations (in particular the circuit with and without barriers/measurements, sampling "
+        "on or off) have equal products in every monoid semantics where gates on disjoint qubits commute; the events are the gates "
+        "in execution order plus one sample per labelled barrier, and initial+barriers+final equals the allocated column count. "
+        "The model's event sequence is compared exactly with the real loop (through _run_strong_sim/_run_weak_sim, stubs for the "
+        "gate kernels) on random circuits; real-numerics search compares results with/without barriers and each sampled column "
+        "with Qiskit's Statevector of the prefix. PARTIAL: Qiskit's DAG API is modelled as an instruction list with the "
+        "front-layer rule; labelled barriers are taken full-width.",
+        COMMON_NOTE + "Modelled, not verified: DAGCircuit.front_layer/remove_op_node.",
+        "DESIGN.md §3 C16"),
 }
 
 NOT_YET = "check not built yet in this round (planned in DESIGN.md §3); no claim is made"
